@@ -11,6 +11,31 @@ fn read_exact_or_eof<R: Read>(reader: &mut R, buf: &mut [u8]) -> Result<()> {
     }
 }
 
+/// Number of bytes between the current position and the end of the stream
+///
+/// The stream position is left unchanged.
+pub(crate) fn remaining_bytes<S: Seek>(stream: &mut S) -> Result<u64> {
+    let position = stream.stream_position()?;
+    let end = stream.seek(SeekFrom::End(0))?;
+    stream.seek(SeekFrom::Start(position))?;
+    Ok(end.saturating_sub(position))
+}
+
+/// Read `size` bytes of chunk data from the current position
+///
+/// The size comes from an untrusted chunk header, so it is checked against the
+/// bytes actually left in the stream before the buffer is allocated.
+pub(crate) fn read_chunk_bytes<R: Read + Seek>(reader: &mut R, size: u32) -> Result<Vec<u8>> {
+    if u64::from(size) > remaining_bytes(reader)? {
+        return Err(WmoError::InvalidChunkSize(size));
+    }
+
+    let mut data = vec![0; size as usize];
+    reader.read_exact(&mut data)?;
+
+    Ok(data)
+}
+
 /// Represents a chunk header in a WMO file
 #[derive(Debug, Clone, Copy)]
 pub struct ChunkHeader {
@@ -102,10 +127,6 @@ impl Chunk {
     /// Read the data of this chunk into a buffer
     pub fn read_data<R: Read + Seek>(&self, reader: &mut R) -> Result<Vec<u8>> {
         self.seek_to_data(reader)?;
-
-        let mut data = vec![0; self.header.size as usize];
-        reader.read_exact(&mut data)?;
-
-        Ok(data)
+        read_chunk_bytes(reader, self.header.size)
     }
 }
